@@ -1,5 +1,6 @@
 (* C13 — a restarted stateful algorithm continues exactly like one that never stopped. *)
 From VZ Require Import Base.Prelude Model.Restart Gen.Serial Proofs.RestartP.
+From VZ Require Model.GridIR Gen.GridSrc Proofs.GridSrcP.
 
 (* The shape of the argument for every designer: if dump -> fresh instance -> load gives an instance related to the old one
    by a relation R that is preserved by every step and forces equal outputs (R = "indistinguishable through public
@@ -104,3 +105,17 @@ Example C13_nonvacuous :
   map (digits [2; 3]%N) (nseq 0 6) = [[0;0];[1;0];[0;1];[1;1];[0;2];[1;2]]%N /\
   py_str_int (-120) = [45;49;50;48]%N /\ grid_load (grid_dump {| g_index := 17; g_seed := Some 5%Z |}) = Some {| g_index := 17; g_seed := Some 5%Z |}.
 Proof. repeat split; reflexivity. Qed.
+
+(* GridSearchDesigner.dump / load as they are today (Gen/GridSrc.v, regenerated from designers/grid.py on every run): a dump
+   loaded into ANY fresh instance - built with another shuffle seed or none, as the hosted policies build it - gives back the
+   dumped instance: position, seed, and the grid ordering re-derived from the restored seed *)
+Theorem C13_source_grid_restart_exact : forall fresh s, GridIR.consistent s ->
+  GridIR.interp_load GridSrc.src_grid fresh (GridIR.interp_dump (GridIR.gs_dump GridSrc.src_grid) s) = Some s.
+Proof. exact GridSrcP.src_grid_restart_exact. Qed.
+Print Assumptions C13_source_grid_restart_exact.
+
+Example C13_source_grid_nonvacuous :
+  GridIR.interp_load GridSrc.src_grid {| GridIR.gf_index := 0; GridIR.gf_seed := None; GridIR.gf_order := None |}
+    (GridIR.interp_dump (GridIR.gs_dump GridSrc.src_grid) {| GridIR.gf_index := 7; GridIR.gf_seed := Some 0%Z; GridIR.gf_order := Some 0%Z |})
+  = Some {| GridIR.gf_index := 7; GridIR.gf_seed := Some 0%Z; GridIR.gf_order := Some 0%Z |}.
+Proof. reflexivity. Qed.
